@@ -4,7 +4,7 @@
 use std::collections::BTreeMap;
 
 use crate::elem::*;
-use crate::job::{join_e, line_e, route_pred, ROUTE_FNS};
+use crate::job::{join_e, line_e, route_pred, zip_e, ROUTE_FNS};
 use crate::plan::*;
 use crate::probe::Ev;
 
@@ -29,6 +29,10 @@ pub struct RefResult {
     pub loop_rounds: Vec<usize>,
     /// expected state (round, acc) at the start of each round, per loop
     pub loop_states: Vec<Vec<(u64, i64)>>,
+    /// the same keyed by the path of the loop step (outermost loops only)
+    pub loop_states_by_path: BTreeMap<Vec<usize>, Vec<(u64, i64)>>,
+    /// loops whose body output is schedule dependent (e.g. zip of unordered streams)
+    pub unpredictable_loops: std::collections::BTreeSet<Vec<usize>>,
     /// streams whose content is schedule dependent (propagated taint)
     pub notes: Vec<String>,
 }
@@ -233,6 +237,8 @@ impl<'a> Interp<'a> {
                 sink_seq: vec![],
                 loop_rounds: vec![],
                 loop_states: vec![],
+                loop_states_by_path: BTreeMap::new(),
+                unpredictable_loops: Default::default(),
                 notes: vec![],
             },
         };
@@ -282,7 +288,7 @@ impl<'a> Interp<'a> {
             match st {
                 Step::Source(i) => {
                     let src = &self.sc.sources[*i];
-                    let ordered = matches!(src, Src::Iter(_) | Src::Channel(_));
+                    let ordered = matches!(src, Src::Iter(_) | Src::Channel(_)) || self.sc.layout.total_cores() == 1;
                     streams.push(Some(RS {
                         v: source_elems(src),
                         weak: false,
@@ -379,7 +385,7 @@ impl<'a> Interp<'a> {
             UnOp::Shuffle => RS {
                 v,
                 weak,
-                ordered: false,
+                ordered: ordered && self.sc.layout.total_cores() == 1,
             },
             UnOp::Repl(_) | UnOp::Batch(_) | UnOp::KeyByDrop => RS { v, weak, ordered },
             UnOp::Broadcast => RS {
@@ -428,7 +434,7 @@ impl<'a> Interp<'a> {
                         .v
                         .iter()
                         .zip(r.v.iter())
-                        .map(|(a, b)| join_e(a.key, Some(a), Some(b)))
+                        .map(|(a, b)| zip_e(a, b))
                         .collect();
                     RS {
                         v,
@@ -484,17 +490,18 @@ impl<'a> Interp<'a> {
         let mut states = Vec::new();
         let mut last_out: Vec<E> = Vec::new();
         let mut weak = input.weak;
+        let mut cur_ordered = input.ordered;
         loop {
             states.push(state);
             // one round
             let round_input: Vec<E> = cur
                 .iter()
-                .map(|e| E { ts: if spec.use_state { rounds as i64 } else { e.ts }, ..e.clone() })
+                .cloned()
                 .collect();
             let mut local: Vec<Option<RS>> = vec![Some(RS {
                 v: round_input,
                 weak,
-                ordered: false,
+                ordered: cur_ordered,
             })];
             for (bi, st) in spec.body.iter().enumerate() {
                 let mut bp = lpath.to_vec();
@@ -515,13 +522,13 @@ impl<'a> Interp<'a> {
                     }
                 }
             }
-            let mut out = local[spec.body_out].take().expect("ref: body output missing");
-            if spec.use_state {
-                for e in out.v.iter_mut() {
-                    e.ts = 0;
-                }
-            }
+            let out = local[spec.body_out].take().expect("ref: body output missing");
             weak |= out.weak;
+            if out.weak {
+                // the state (and with a data dependent condition the number of rounds) depends on
+                // the schedule from here on: nothing about this loop can be predicted
+                self.res.unpredictable_loops.insert(lpath.to_vec());
+            }
             // next state: fold of all body outputs of this round
             for e in &out.v {
                 state.1 = agg.step(state.1, e.v);
@@ -536,9 +543,11 @@ impl<'a> Interp<'a> {
             }
             if spec.iterate {
                 cur = out.v;
+                cur_ordered = out.ordered;
             }
         }
         self.res.loop_rounds.push(rounds);
+        self.res.loop_states_by_path.insert(lpath.to_vec(), states.clone());
         self.res.loop_states.push(states);
         let st = RS {
             v: vec![E {
